@@ -197,6 +197,27 @@ def exhaustive_family():
     return out
 
 
+def flag_family():
+    """Two plain objects x the three spellings of the overlap flag (absent, explicit false, explicit true) x same / other
+    address, with the verdict written down from the property text (an oracle on the ABSTRACT definition: the model sees the
+    MIR of the real front end, so a front end that reads `ALLOW_ADDRESS_OVERLAP = false` as true is invisible to it —
+    seed C12-8).  -> [(definition, expected implementation verdict)]"""
+    out = []
+    mk = {"register": lambda n, a, fl: adef.mk_register(n, a, 8, ac.small_field(), allow_address_overlap=fl),
+          "command": lambda n, a, fl: adef.mk_command(n, a, allow_address_overlap=fl),
+          "buffer": lambda n, a, fl: adef.mk_buffer(n, a)}
+    for ka, kb in itertools.product(("register", "command", "buffer"), repeat=2):
+        for fa, fb in itertools.product((None, False, True), repeat=2):
+            if (ka == "buffer" and fa is not None) or (kb == "buffer" and fb is not None):
+                continue
+            for same in (True, False):
+                d = {"config": adef.mk_config(register_address_type="u8", command_address_type="u8", buffer_address_type="u8"),
+                     "objects": [mk[ka]("Obja", 5, fa), mk[kb]("Objb", 5 if same else 6, fb)]}
+                collide = same and ka == kb and not (fa is True and fb is True)
+                out.append((d, "error:address_overlap:Obja|Objb|5" if collide else "ok"))
+    return out
+
+
 def judge(e, d10_open):
     """-> (verdict, detail): 'agree' | 'D10' | 'violation'"""
     impl = e["impl"]
@@ -249,6 +270,13 @@ def run(ctx):
         cid = f"x{i}"
         defs[cid] = (d, "dsl")
         items.append((cid, d, "dsl", adef.render(d, "dsl")))
+    expect_impl = {}
+    for i, (d, want) in enumerate(flag_family()):
+        for sx in ("dsl", "json", "yaml", "toml"):
+            cid = f"f{i}{sx}"
+            defs[cid] = (d, sx)
+            expect_impl[cid] = want
+            items.append((cid, d, sx, adef.render(d, sx)))
     nex = len(items)
     for i in range(n):
         d = gen_def(rng, stats)
@@ -267,6 +295,9 @@ def run(ctx):
     for (cid, d, sx, tx) in items:
         e = res[cid]
         v, detail = judge(e, d10 is not None)
+        if v != "violation" and cid in expect_impl and e["impl"] != expect_impl[cid]:
+            v, detail = "violation", (f"implementation {e['impl']!r}, the verdict written down from the property text for this pair of "
+                                      f"objects and overlap flags is {expect_impl[cid]!r} (syntax {sx})")
         verdicts[v] += 1
         impl = e["impl"]
         outcome_hist[impl.split(":")[1] if impl.startswith("error:") else impl] += 1
@@ -292,7 +323,7 @@ def run(ctx):
                              "failing_input": {"syntax": "dsl", "text": adef.render(small, "dsl"), "adef": small},
                              "original_input": {"syntax": sx, "adef": d},
                              "implementation": sres["impl"], "message": sres["message"], "model_and_spec": sres["coq"],
-                             "detail": judge(sres, d10 is not None)[1], "disagreements": len(bad)})
+                             "detail": judge(sres, d10 is not None)[1] or detail, "disagreements": len(bad)})
     elif not info["ok"]:
         vlib.violation(ctx, {"broken": info["reason"], "theorem": "props/C12.v"}, no_input=True)
     if not (0.2 <= acc <= 0.9):
